@@ -286,6 +286,17 @@ func rewriteFile(p *packages.Package, f *ast.File, rel string) []byte {
 			if st := r.rewriteRange(n); st != nil {
 				c.Replace(st)
 			}
+		case *ast.CallExpr:
+			// rtp.NewRandomSequencer() starts at a number pion/rtp draws from a generator nobody can seed:
+			// the start comes from the plan instead
+			if sel, ok := n.Fun.(*ast.SelectorExpr); ok && sel.Sel.Name == "NewRandomSequencer" && len(n.Args) == 0 {
+				if x, ok := sel.X.(*ast.Ident); ok {
+					if pn, ok := p.TypesInfo.Uses[x].(*types.PkgName); ok && pn.Imported().Path() == "github.com/pion/rtp" {
+						rep.Rewrites["rtp.NewRandomSequencer"]++
+						c.Replace(&ast.CallExpr{Fun: &ast.SelectorExpr{X: ast.NewIdent(x.Name), Sel: ast.NewIdent("NewFixedSequencer")}, Args: []ast.Expr{r.call("SeqStart")}})
+					}
+				}
+			}
 		case *ast.ExprStmt:
 			if call, ok := n.X.(*ast.CallExpr); ok {
 				if id, ok := call.Fun.(*ast.Ident); ok && id.Name == "close" && len(call.Args) == 1 {
